@@ -7,7 +7,7 @@ pat = sys.argv[2] if len(sys.argv) > 2 else "./..."
 base = json.load(open("/root/.vp/BASELINE.json"))
 want = set(base["stable_pass"])
 env = dict(os.environ, GOFLAGS="-mod=mod", GOPROXY="off")
-p = subprocess.run(["go", "test", "-json", "-vet=off", "-count=1", "-timeout", "25m", pat], cwd=repo, env=env, capture_output=True, text=True)
+p = subprocess.run(["go", "test", "-json", "-vet=off", "-count=1", "-timeout", "25m"] + pat.split(), cwd=repo, env=env, capture_output=True, text=True)
 res = {}
 pkgs = set()
 for l in p.stdout.splitlines():
